@@ -41,6 +41,16 @@ CHECKS = {
          'All sequences of <=5 (thorough <=7) operations from set/delete/add/get/balance/nonce/code/snapshot/revert/finalise/commit/reopen/cache purge over 2 accounts x 3 prefix-related keys x 4 values; states deduplicated on the full in-memory + stored state; every getter and three prefix queries compared with the reference in every state.',
          'memkv stands in for goleveldb; LRU eviction modelled as whole-cache purge', '5 C13'),
 }
+CHECKS.update({
+ 'C18': ('poolmc', 'model_checking',
+         'explicit-state BFS over mempool operation sequences on the real pool in lock-step with a reference model (virtual clock)',
+         'All sequences up to depth 5 (thorough 6) of 20-27 operations (receive as leader/follower, local/remote, slices with out-of-order, duplicate-nonce and conflicting transactions; generate; commit in order / reversed / partial; commit of a block built elsewhere; clock ticks; age eviction; restart; sequence reset) with batch sizes 1,2,3; states deduplicated on a canonical dump of every pool index; every returned batch is checked (consecutive nonces from committed/last batched, not twice, the held object, not below the ledger nonce, size, sequence).',
+         'two accounts, nonces 0..3; clock seam by rewriting time.Now() in copies of the pool sources at build time; goroutine interleavings inside commit/evict are not enumerated (fork-join on disjoint indexes)', '5 C18'),
+ 'C19': ('poolmc', 'model_checking',
+         'explicit-state BFS over mempool operation sequences with a state oracle and an exhaustive drain continuation from every state',
+         'Same exploration as C18; in every distinct state the fate of each admitted transaction (committed / retrievable by hash as itself / superseded / evicted by the age rule), the pending-work report and the pending nonce per account are compared with the model, and the drain continuation (commit outstanding, then generate+commit until empty) must include every ready transaction.',
+         'as C18', '5 C19'),
+})
 REASON_WIP = 'check not built yet (work in progress; see DESIGN.md section 10)'
 def main():
     checks = []
@@ -73,6 +83,7 @@ def main():
             {'name': 'icmc', 'path': 'harness/checks/ic.go', 'serves_properties': ['C02', 'C04', 'C06'], 'kind_free_text': 'explicit-state BFS over block histories of the real executor stepped with a reference model'},
             {'name': 'chainmc', 'path': 'harness/checks/c09.go', 'serves_properties': ['C09', 'C14'], 'kind_free_text': 'explicit-state BFS over chain histories'},
             {'name': 'crashmc', 'path': 'harness/checks/c11.go', 'serves_properties': ['C11'], 'kind_free_text': 'crash-state enumeration from recorded writes'},
+            {'name': 'poolmc', 'path': 'harness/checks/pool.go', 'serves_properties': ['C18', 'C19'], 'kind_free_text': 'explicit-state BFS over the real mempool'},
             {'name': 'enum', 'path': 'harness/checks/c10.go', 'serves_properties': ['C10'], 'kind_free_text': 'bounded-exhaustive enumeration'},
         ],
         'checks': checks,
